@@ -347,6 +347,63 @@ def asan_support(run, calls, timeout=900):
     return info
 
 
+PREFLIGHT_CHILD = r"""
+import pickle, sys, os, warnings
+warnings.simplefilter("ignore")
+sys.path.insert(0, %(verif)r)
+from harness import common
+if os.path.isdir(common.DEPS):
+    sys.path.insert(0, common.DEPS)
+sys.path.insert(0, common.REPO)
+shim = common.Shim(%(lib)r)
+mod = shim.as_module()
+sys.modules["phonopy._phonopy"] = mod
+import phonopy
+phonopy._phonopy = mod
+common._STATE["shim"] = shim
+from harness.props import c13
+cfgs = pickle.load(open(%(pk)r, "rb"))
+for k, cfg in enumerate(cfgs):
+    print("PREFLIGHT-SCENARIO", k, flush=True)
+    c13.scenario(cfg)
+print("PREFLIGHT-DONE", flush=True)
+"""
+
+
+def asan_preflight(cfgs):
+    info = {}
+    try:
+        lib = common.build_lib("omp", extra_flags=("-fsanitize=address,undefined", "-fno-omit-frame-pointer", "-g", "-fno-sanitize-recover=undefined"), tag="asan")
+    except common.Broken as b:
+        return {"status": "skipped: sanitizer build failed: %s" % (b.detail or "")[-300:]}
+    rt = next((c for c in ("/usr/lib/x86_64-linux-gnu/libasan.so.8", "/usr/lib/gcc/x86_64-linux-gnu/12/libasan.so") if os.path.exists(c)), None)
+    if rt is None:
+        return {"status": "skipped: libasan runtime not found"}
+    with tempfile.TemporaryDirectory() as td:
+        pk = os.path.join(td, "cfgs.pkl")
+        pickle.dump(cfgs, open(pk, "wb"))
+        env = dict(os.environ)
+        env.update({"LD_PRELOAD": rt, "ASAN_OPTIONS": "detect_leaks=0:abort_on_error=0:exitcode=97:allocator_may_return_null=1",
+                    "UBSAN_OPTIONS": "print_stacktrace=1:halt_on_error=1:exitcode=98", "OMP_NUM_THREADS": "4"})
+        try:
+            r = subprocess.run([sys.executable, "-c", PREFLIGHT_CHILD % dict(verif=common.VERIF, lib=lib, pk=pk)], capture_output=True, text=True, timeout=240, env=env, cwd=common.VERIF)
+        except subprocess.TimeoutExpired:
+            return {"status": "skipped: preflight child timed out"}
+    info["returncode"] = r.returncode
+    last = [l for l in r.stdout.split("\n") if l.startswith("PREFLIGHT-SCENARIO")]
+    if last:
+        info["scenario_index"] = int(last[-1].split()[1])
+    if "PREFLIGHT-DONE" in r.stdout and r.returncode == 0:
+        info["status"] = "clean"
+    elif "AddressSanitizer" in r.stderr or "runtime error" in r.stderr:
+        info["status"] = "REPORT"
+        info["report"] = r.stderr[-3000:]
+        info["report_full"] = r.stderr[:20000]
+    else:
+        info["status"] = "skipped: child failed without a sanitizer report (rc=%d): %s" % (r.returncode, r.stderr[-300:])
+    return info
+
+
 def sanitizer_selection(calls, per_kernel):
     """a few calls per kernel; for the kernels with index-table dependent temporaries prefer the calls whose
     atom list is a proper subset (compact / primitive-first layouts)"""
@@ -872,6 +929,20 @@ def main(run):
             # left-handed description in every run (lattice-handedness assumptions in the kernels / glue would show as C != reference)
             cfg["relabel"] = rng.choice(["swap12", "negate3", "invert"])
         cfgs.append(cfg)
+    # ---- pre-flight: the first scenarios once through the public path in a child process against the sanitizer build.
+    # Heap corruption inside a kernel can take the checking process down before any verdict; the child finds it first.
+    pre = asan_preflight(cfgs[:2])
+    run.cov["oracle"]["sanitizer_preflight"] = {k: v for k, v in pre.items() if k not in ("report", "report_full")}
+    if pre.get("status") == "REPORT":
+        rl = pre.get("report_full", "").split("\n")
+        head = [l.strip() for l in rl if "ERROR: AddressSanitizer" in l or "runtime error" in l][:2] + [l.strip() for l in rl if re.search(r"/c/\w+\.c(pp)?:\d+", l)][:3] + \
+               [l.strip() for l in rl if "WRITE of size" in l or "READ of size" in l or "is located" in l][:2]
+        k_ = pre.get("scenario_index", 0)
+        run.violation("phonopy._phonopy (public scenario)", "sanitizer-report",
+                      "AddressSanitizer/UBSan reports an error inside a kernel while the scenario runs through the public API: %s" % (head[0] if head else "see report"),
+                      dict(config=cfgs[min(k_, len(cfgs) - 1)], report_head=head, report_tail=pre.get("report", "")[-1200:]))
+        return      # running the same calls in this process could crash it; the failing input is recorded
+    for s, cfg in enumerate(cfgs):
         U.set_threads(4)
         shim_omp.trace = cap
         R = scenario(cfg, with_reference=True)
